@@ -1,6 +1,9 @@
 package main
 
 // Stream `resown` (property C02): see internal/lang2/gen_res.go; Exec and line format in stream_lang2.go.
+// Plus the directed multi-account family (internal/lang2/multi.go): op lines with `gen=multiacct`, whose
+// go result is `multi @@ <obs interp> @@ <obs vm>` with full event type ids; the driver judges them with
+// the expected event multiset carried in the op line (`expect=`), no model run.
 
 import (
 	"strconv"
@@ -10,8 +13,23 @@ import (
 	"verif/harness/internal/lang2"
 )
 
+func execResown(op []string) string {
+	for _, f := range op {
+		if f == "gen=multiacct" {
+			src := strings.ReplaceAll(op[len(op)-1], "\\n", "\n")
+			return "multi @@ " + lang2.RunMulti(src, false) + " @@ " + lang2.RunMulti(src, true)
+		}
+	}
+	return execLang2(op)
+}
+
 func init() {
-	hx.Register(&hx.Stream{Name: "resown", Parallel: true, Exec: execLang2, Gen: func(c *hx.Ctx) {
+	hx.Register(&hx.Stream{Name: "resown", Parallel: true, Exec: execResown, Gen: func(c *hx.Ctx) {
+		// the directed multi-account family is small: all of it, every run
+		for _, m := range lang2.MultiScenarios() {
+			c.Emit("resown", m.Label, "gen=multiacct", "n="+strconv.Itoa(m.N), "expect="+strings.Join(m.Expect, ";"),
+				"forms="+strings.Join(m.Forms, ","), l2Src(m.Src))
+		}
 		for i := 0; i < c.N; i++ {
 			p := lang2.GenerateRes(c.Rng.Fork())
 			c.Emit("resown", "g"+strconv.Itoa(i), "created="+strconv.Itoa(p.Created), "forms="+strings.Join(p.Forms, ","), l2Src(p.Src))
